@@ -4,7 +4,7 @@ import os
 import common
 
 PROPS = "RotoV.Props.C02"
-MODULES = ["RotoV.Lemmas.Layout", "RotoV.Lemmas.LayoutPath", "RotoV.Lemmas.LayoutClone", "RotoV.Lemmas.LayoutEq", "RotoV.Lemmas.LayoutTotal", "RotoV.Lemmas.LayoutDrop", "RotoV.Lemmas.LayoutRead", "RotoV.Lemmas.LayoutWrite", "RotoV.Model.LayoutMem", "RotoV.Model.Layout", "RotoV.Model.LayoutOps",
+MODULES = ["RotoV.Lemmas.Layout", "RotoV.Lemmas.LayoutPath", "RotoV.Lemmas.LayoutClone", "RotoV.Lemmas.LayoutEq", "RotoV.Lemmas.LayoutTotal", "RotoV.Lemmas.LayoutDrop", "RotoV.Lemmas.LayoutRead", "RotoV.Lemmas.LayoutWrite", "RotoV.Lemmas.LayoutListEq", "RotoV.Model.LayoutListEq", "RotoV.Model.LayoutListStd", "RotoV.Model.LayoutMem", "RotoV.Model.Layout", "RotoV.Model.LayoutOps",
            "RotoV.Model.LayoutStd", "RotoV.Model.LayoutKind", "RotoV.Model.ValueSpec"]
 
 
@@ -17,7 +17,7 @@ def search(ctx):
 
 
 def run(ctx):
-    ctx.extract(["layout", "layoutloops", "layoutdecide"])
+    ctx.extract(["layout", "layoutloops", "layoutdecide", "layoutlisteq"])
     ctx.prove(PROPS, extra_modules=MODULES)
     if ctx.build_harness("c02"):
         ctx.harness("c02", ["run", ctx.seed, ctx.tier], timeout=3000)
